@@ -79,6 +79,22 @@ def main():
     items["twins.layer"] = out(LayerRule().based_on(arch_t).layers_that().are_named("B").should_not().access_layers_that().are_named(["X", "Y"]), evt)
     items["twins.layer.be"] = out(LayerRule().based_on(arch_t).layers_that().are_named("B").should_not().be_accessed_by_layers_that().are_named(["X", "Y"]), evt)
 
+    # layer names that differ only in case, listed together in one line of a report
+    arch_c = LayeredArchitecture().layer("Data").containing_modules(["r.x"]).layer("data").containing_modules(["r.y"]).layer("DATA").containing_modules(["r.b"])
+    for v in ("should", "should_only"):
+        items[f"twins.layers.case.{v}"] = out(getattr(LayerRule().based_on(arch_c).layers_that().are_named("DATA"), v)().access_layers_that().are_named(["Data", "data"]), EvaluableArchitectureGraph(NetworkxGraph(list(twins), [])))
+        items[f"twins.layers.case.{v}.be"] = out(getattr(LayerRule().based_on(arch_c).layers_that().are_named("DATA"), v)().be_accessed_by_layers_that().are_named(["data", "Data"]), EvaluableArchitectureGraph(NetworkxGraph(list(twins), [])))
+    # magnitudes: 12 x 12 = 144 violating imports in one rule (and 25 objects missing for one subject)
+    many = ["r", "r.s", "r.o", "r.q"] + [f"r.s.m{i}" for i in range(12)] + [f"r.o.t{i}" for i in range(12)] + [f"r.q.u{i:02d}" for i in range(25)]
+    mimps = [(f"r.s.m{i}", f"r.o.t{j}") for i in range(12) for j in range(12)]
+    evm = EvaluableArchitectureGraph(NetworkxGraph(list(many), [AbsoluteImport(a, b) for a, b in mimps]))
+    items["many.should_not"] = out(Rule().modules_that().are_named("r.s").should_not().import_modules_that().are_named("r.o"), evm)
+    items["many.should_only"] = out(Rule().modules_that().are_named("r.s").should_only().import_modules_that().are_named("r.q"), evm)
+    items["many.be"] = out(Rule().modules_that().are_named("r.o").should_not().be_imported_by_modules_that().are_sub_modules_of("r.s"), evm)
+    items["many.missing"] = out(Rule().modules_that().are_named("r.s").should().import_modules_that().are_named([f"r.q.u{i:02d}" for i in range(25)]), evm)
+    arch_m = LayeredArchitecture().layer("S").containing_modules(["r.s"]).layer("O").containing_modules(["r.o"]).layer("Q").containing_modules(["r.q"])
+    items["many.layer"] = out(LayerRule().based_on(arch_m).layers_that().are_named("S").should_only().access_layers_that().are_named("Q"), evm)
+
     work = tempfile.mkdtemp(prefix="PTA-HS-", dir=boot.scratch_root())
     os.environ["PTA_SCRATCH"] = work
     try:
